@@ -235,6 +235,44 @@ def rule_import_removal_owner(ctx, rep):
         raise AnalysisError("import-rewriting hooks of the allow-listed owners not found (anchor vanished)")
 
 
+def rule_import_scheduled(ctx, rep):
+    rep.rule(
+        "R-IMPORT-SCHEDULED",
+        "every framework wrapper around AddImportsVisitor.add_needed_import (a function that forwards its own module/object "
+        "parameters) schedules the import on every path to a normal exit, with its parameters bound to the same roles: a wrapper "
+        "that can return without scheduling leaves every `module.name(...)` its callers emit unbound",
+        min_instances=1,
+    )
+    n = 0
+    for fn in ctx.prog.live_functions():
+        r = ctx.resolver(fn)
+        calls = [c for c in walk_no_nested(fn.node) if isinstance(c, ast.Call) and last_attr(c.func) == "add_needed_import"
+                 and isinstance(c.func, ast.Attribute) and (last_attr(c.func.value) or "") == "AddImportsVisitor"]
+        params = set(fn.params())
+        def module_arg(c):
+            return c.args[1] if len(c.args) >= 2 else next((k.value for k in c.keywords if k.arg == "module"), None)
+
+        fwd = [c for c in calls if isinstance(module_arg(c), ast.Name) and module_arg(c).id in params]
+        if not fwd:
+            continue
+        n += 1
+        ids = {id(c) for c in fwd}
+        fa = FlowAnalysis(fn.node, lambda c, _i=ids: "EV:scheduled" if id(c) in _i else None)
+        bad = [e for e in fa.exits if e.kind != "raise" and not has_event(e.state, "EV:scheduled")]
+        rep.check("R-IMPORT-SCHEDULED", fn.qname, fn.loc(bad[0].node) if bad and bad[0].node is not None else fn.loc(), not bad, "always-schedules",
+                  f"{fn.name} can return without calling AddImportsVisitor.add_needed_import (exit `{unparse(bad[0].node)[:40] if bad and bad[0].node is not None else 'end'}`): "
+                  "whether the needed name is bound then depends on a check the wrapper makes itself (e.g. an import that exists only in another scope)")
+        for c in fwd:
+            # roles: (context, module[, obj[, asname]]) -- the wrapper's module parameter feeds `module`, its object parameter `obj`
+            pos = fn.positional_params()
+            names = [a.id if isinstance(a, ast.Name) else None for a in c.args[1:]] + [k.value.id if isinstance(k.value, ast.Name) else None for k in c.keywords]
+            order = [p for p in pos if p in names]
+            ok = order == [x for x in names if x in pos]
+            rep.check("R-IMPORT-SCHEDULED", fn.qname, fn.loc(c), ok, "roles", f"`{unparse(c)[:70]}` passes the wrapper's parameters in a different order than it receives them")
+    if n == 0:
+        raise AnalysisError("no forwarding wrapper around AddImportsVisitor.add_needed_import found (libcst_transformer.add_needed_import anchor vanished)")
+
+
 def rule_nodetype(ctx, rep, prop_rule="R-NODETYPE"):
     """ComparisonTarget.operator must be a comparison operator: the value assigned in every branch of the inversion match."""
     rep.rule(
@@ -277,6 +315,7 @@ def check(ctx, rep):
     )
     rule_import_pair(ctx, rep)
     rule_import_removal_owner(ctx, rep)
+    rule_import_scheduled(ctx, rep)
     rule_nodetype(ctx, rep)
     rep.not_covered += [
         "scope-aware reasoning about which assignments RemoveUnusedVariables may drop (depends on libcst scope metadata)",
